@@ -895,6 +895,9 @@ func unop(instr *ssa.UnOp, x value) value {
 			return -x
 		case sym:
 			w, _ := kindWidth(x.k)
+			if isFloatKind(x.k) {
+				return fromTerm(x.k, tOp("bvxor", w, 0, x.t, bvConst(uint64(1)<<uint(w-1), w)))
+			}
 			return fromTerm(x.k, tOp("bvneg", w, 0, x.t))
 		}
 	case token.MUL:
